@@ -16,7 +16,9 @@ PART = {
     components=["twice", "file", "c05sink"],
     fidelity={"Impl.Writer": "exact (control), byte-exact whole files through Impl.FileReal for codecs 0/1/5/7",
               "GZIP/ZSTD pages": "whole files byte-for-byte with the page bodies compressed by zlib / libzstd called directly by the harness (levels 6 / 3, gzip wrapper, memLevel 8) as the model's compression oracle"},
-    rule="file: random flat schemas (1..4 columns over the 7 writable types, REQUIRED/OPTIONAL), contents with extreme "
+    rule="file: random flat schemas (1..4 columns over the 7 writable types, REQUIRED/OPTIONAL/REPEATED; a REPEATED column holds "
+         "lists of 0..12 elements per row, written with definition levels 0 = empty list / 1 = element and repetition levels "
+         "both supplied and NULL, batches ending at row boundaries and inside lists), contents with extreme "
          "ints, NaN/-0.0 patterns, empty and long strings, all-null / no-null / run-structured null patterns, zero rows; "
          "6 codec tags; page_size 1 B .. 1 MiB; 0..3 row groups; every column's rows split into 1..4 write_batch calls "
          "(also empty ones, NULL def_levels); each file written twice, read back through fread, mmap and buffer. "
